@@ -34,6 +34,8 @@ type c16Case struct {
 	// KnownPW (login-exists pair): the stored password of the known account is "" normal,
 	// "empty" (account created by an OAuth2 sign-in or an invitation) or "garbage" (not a bcrypt hash)
 	KnownPW string `json:"known_pw,omitempty"`
+	// RedirInBody: the return target travels in the request body (form field / JSON member) instead of the query
+	RedirInBody bool `json:"redir_in_body,omitempty"`
 }
 
 var c16PreludeKinds = []string{"rec-known", "rec-known", "rec-unknown", "login-ok", "login-page", "adv1", "adv45", "adv90", "newsess"}
@@ -154,7 +156,9 @@ func c16Run(c c16Case) *Violation {
 			}
 		}
 		q := harness.Req{Method: "POST", Path: w.Path(route), Form: f}
-		if c.Redir != "" {
+		if c.Redir != "" && c.RedirInBody {
+			f["redir"] = c.Redir
+		} else if c.Redir != "" {
 			q.Query = map[string][]string{"redir": {c.Redir}}
 		}
 		return q
@@ -261,6 +265,7 @@ func c16Gen(t *rapid.T) c16Case {
 	c.Cfg.LockAfter = rapid.IntRange(2, 6).Draw(t, "lockafter16")
 	c.RM = chance(t, "rm", 40)
 	c.Redir = pick(t, "redir", "", "", "/back/here")
+	c.RedirInBody = c.Redir != "" && chance(t, "redirinbody", 50)
 	c.WrongPW = pick(t, "wrongpw", "wrong-Pass1!", "", "x", "Passw0rd!a", "Passw0rd!B")
 	if c.Cfg.Username {
 		c.Unknown = pick(t, "unknown", "ghost", "userz", "nobody1")
@@ -306,7 +311,7 @@ func TestC16(t *testing.T) {
 		c := c16Gen(rt)
 		v := c16Run(c)
 		a := c.Cfg.Accounts[0]
-		cls := fmt.Sprintf("%s|json=%v|%v|%v|cnt=%d|ago=%d|totp=%v|sms=%v|rm=%v|mw=%s|err500=%v", c.Kind, c.Cfg.JSON, c.Cfg.Modules, c.Cfg.Setups, c.Count, c.LastAgoS, a.TOTP, a.Phone != "", c.RM, c.Cfg.Middleware, c.Cfg.Err500) + "|" + strings.Join(c.Prelude, ",") + "|" + c.MailFault + "|" + c.KnownPW
+		cls := fmt.Sprintf("%s|json=%v|%v|%v|cnt=%d|ago=%d|totp=%v|sms=%v|rm=%v|mw=%s|err500=%v", c.Kind, c.Cfg.JSON, c.Cfg.Modules, c.Cfg.Setups, c.Count, c.LastAgoS, a.TOTP, a.Phone != "", c.RM, c.Cfg.Middleware, c.Cfg.Err500) + "|" + strings.Join(c.Prelude, ",") + "|" + c.MailFault + "|" + c.KnownPW + fmt.Sprint(c.RedirInBody)
 		classes := []string{"pair:" + c.Kind}
 		if len(c.Prelude) > 0 {
 			classes = append(classes, "with-prelude")
